@@ -22,6 +22,7 @@ def run(ctx: Ctx) -> None:
     ctx.rule("R-AUTO", "--auto forces exactly {inplace,nobackup,semantic,cleanups,smartquotes,ellipses}, guarded only by the flag")
     ctx.rule("R-CONSUMER", "each switch directly controls exactly its consumer call (and the right rewriter is passed)")
     ctx.rule("R-SINK", "written value == value returned by reformat_text; formatter input == value read")
+    ctx.rule("R-WRITE-W8", "after formatting, every normal path of reformat_file writes the result (file or stdout)")
     ctx.rule("R-USAGE", "usage errors precede every write-capable call on all paths; main maps them to non-zero exits")
     ctx.rule("R-LOOPSTATE", "no variable is live across iterations of the per-file loop")
     for _r, _t in (("R-PURE-S1", "no global / escaping-closure state"), ("R-PURE-S2", "no mutation of module-level objects"), ("R-PURE-S3", "no class-attribute state"),
@@ -36,6 +37,7 @@ def run(ctx: Ctx) -> None:
     ctx.run(optflow.check_sinks)
     ctx.run(optflow.check_loop_state)
     ctx.run(write.check_usage_errors)
+    ctx.run(write.check_result_always_written)
     # 'each file gets exactly the result it would get alone' also needs that no state survives a formatting call (C13's argument)
     ctx.run(pure.check_pure)
     ctx.assume("CPython argparse semantics for store_true / type=int / choices; dataclass __init__ binds keywords to fields by name")
